@@ -9,7 +9,7 @@ LEVEL = "proof"
 
 def components():
     return [T.IntStore(), T.Dec64Store(), T.Dec64Next(), T.BoolStore(), T.ValCmp(), T.ValSort(), T.RangeCheck(),
-            T2.EnumStore(), T2.BitsStore(), T2.BinStore(), T2.StrLenStore(), T2.UnionStore(), T2.Cmp2(), T2.Sort2(), T2.Ip4PrefixHost(), T2.IidCanon()]
+            T2.EnumStore(), T2.BitsStore(), T2.BinStore(), T2.StrLenStore(), T2.UnionStore(), T2.Cmp2(), T2.Sort2(), T2.Ip4PrefixHost(), T2.IidCanon(), T2.IdRefStore()]
 
 
 def oracles_():
@@ -39,7 +39,13 @@ MANIFEST = {
             "_eq_iff_canon_partial, _ends: no text form), and the canonical STRING of instance-identifier / "
             "node-instance-identifier (IidCanon.v on PathQuote.v: C03_iid_parse_print, _canon_idempotent, _eq_iff_canon for "
             "paths with identifier names whose predicate values hold one quote kind; _hoisted_quote_refuted is a regression "
-            "witness of a shared-quote printer variant, not a defect of the tree). Tie (T2): the extracted models and the C "
+            "witness of a shared-quote printer variant, not a defect of the tree), and identityref at value level (IdRef.v, JSON "
+            "value format: C03_idref_isderived_iff - the derived-array search finds exactly the chains of 1..fuel base statements; "
+            "C03_idref_store_all_bases - an accepted value is an identity of the addressed module derived from EVERY base "
+            "(f805b4f); C03_idref_canon_idempotent and C03_idref_eq_iff_canon for module names without colon; "
+            "C03_idref_sort_total_order among identities of one module, C03_idref_sort_refuted across modules (model level only); "
+            "C03_idref_any_base_refuted = regression of the fixed any-base variant; C03_idref_empty_prefix_refuted = the known "
+            "finding idref-empty-prefix as coded). Tie (T2): the extracted models and the C "
             "library answer the same generated cases through lyd_value_validate / lyd_new_term / lyd_value_compare / sorted "
             "insertion (exhaustive over short strings for int8/uint8/decimal64 only, boundary-dense and random otherwise). "
             "Search only (no proof): RfcStoreOracle and Types2Rfc (independent Python reading of RFC 7950 section 9 / RFC 4648), "
@@ -62,7 +68,10 @@ MANIFEST = {
             "ly_utf8len + string length check (UTF-8 check from Utf8.v), union_find_type/compare_union/sort_union over "
             "int/enum/string members only, ipv4prefix_zero_host (mask loop; inet_pton/inet_ntop not modelled), "
             "instanceid_path2str / node_instanceid_path2str in the JSON format with a reader restricted to the printed shapes "
-            "(no schema resolution). Oracle level only: patterns (C18), identityref, leafref, instance-identifier resolution, "
+            "(no schema resolution), identityref_str2ident / identityref_check_base / lyplg_type_identity_isderived / compare / "
+            "sort on an explicit table of modules, identities and derived arrays (T2 t2-idref on the test module's identities; "
+            "disabled identities, unimplemented modules, the status check and the XML / schema prefix formats are not modelled). "
+            "Oracle level only: patterns (C18), leafref, instance-identifier resolution, "
             "the inet/yang derived types incl. date-and-time, hints handling of the JSON parser, LYB value encoding (round trip "
             "only), schema-default entry point (hex/octal integers excepted by RFC 7950 9.2.1). Outside everything: values "
             "with NUL bytes or non-YANG characters are compared among API sources only; time-zone dependent canonical form of "
